@@ -31,6 +31,7 @@ import rolling as rolling_tr  # noqa: E402
 PER = {"m": 60, "h": 3600, "d": 86400}
 ROTC = {"m": "Minutely", "h": "Hourly", "d": "Daily", "n": "Never"}
 TMAX = 200000000000  # year 8307: keeps [year] four digits and next_date inside the time crate's range
+DT_MAX = 253402300799  # 9999-12-31T23:59:59Z: the last instant of the time crate (no large-dates); next_date(t) panics when t + period > DT_MAX
 EPOCH = datetime.datetime(1970, 1, 1)
 
 
@@ -164,6 +165,127 @@ def gen_pre(rng, cfg, t0):
         names.add(n)
         pre.append([n, mkbuf(90 + len(pre), rng).hex()])
     return pre
+
+
+def gen_pre_rich(rng, cfg, t0):
+    """a directory as a restarted appender finds it: its own files of earlier (and a few later) periods - often more
+    than the limit -, sometimes the file of the current period already there (must be appended to, not truncated),
+    and foreign entries (some sharing only the prefix or only the suffix)"""
+    pre = []
+    names = set()
+    P = PER.get(cfg["rot"], 86400)
+    n_own = rng.choice([0, 1, 2, 3, 4, 5, 6, 7])
+    offs = rng.sample(range(-9, 3), min(n_own, 12))
+    if rng.random() < 0.4 and 0 not in offs:
+        offs.append(0)
+    for o in offs:
+        n = pname(cfg, clamp(t0 + o * P))
+        if n not in names:
+            names.add(n)
+            pre.append([n, mkbuf(90 + len(pre), rng).hex()])
+    for _ in range(rng.choice([0, 1, 1, 2, 3])):
+        n = rng.choice(FOREIGN + ([cfg["prefix"] + ".cfg", cfg["prefix"] + "-old"] if cfg["prefix"] else []) +
+                       (["archive." + cfg["suffix"], "x-" + cfg["suffix"]] if cfg["suffix"] else []))
+        if not cfg["prefix"] and not cfg["suffix"] and re.match(r"\d", n):
+            continue
+        if n not in names:
+            names.add(n)
+            pre.append([n, mkbuf(90 + len(pre), rng).hex()])
+    rng.shuffle(pre)
+    return pre
+
+
+def gen_more_lives(rng, cfg, t_last, nlives):
+    """further appender lifetimes over the same directory: restart in the same period, a later one (often many periods
+    later), occasionally with the clock behind; the limit may change (lowered / raised / dropped)"""
+    more = []
+    P = PER.get(cfg["rot"], 3600)
+    t = t_last
+    for _ in range(nlives):
+        r = rng.random()
+        if r < 0.3:
+            t0 = t + rng.randint(0, max(0, P - t % P - 1))
+        elif r < 0.85:
+            t0 = t + rng.randint(1, 30) * P + rng.randint(0, P - 1)
+        else:
+            t0 = t - rng.randint(1, 3 * P)
+        t0 = clamp(t0)
+        mx = rng.choice([cfg["max"], cfg["max"], 1, 2, 3, None])
+        iface = rng.choice(["x", "x", "s"])
+        tt = t0
+        ops = []
+        k = 50 + 10 * len(more)
+        if iface == "x":
+            for _k in range(rng.randint(1, 6)):
+                tt = clamp(next_time(rng, cfg["rot"], tt))
+                ops.append(["w", 0, tt, mkbuf(k, rng).hex()]); k += 1
+            nth = 1
+        else:
+            nth = rng.randint(2, 3)
+            parked = None
+            for _k in range(rng.randint(1, 6)):
+                tt = clamp(next_time(rng, cfg["rot"], tt, allow_back=rng.random() < 0.4))
+                if parked is None and rng.random() < 0.25:
+                    parked = rng.randrange(nth)
+                    ops.append(["park", parked, tt, mkbuf(k, rng).hex()]); k += 1
+                else:
+                    th = rng.choice([i for i in range(nth) if i != parked])
+                    ops.append(["w", th, tt, mkbuf(k, rng).hex()]); k += 1
+            if parked is not None:
+                ops.append(["rel", parked])
+        more.append({"t0": t0, "max": mx, "iface": iface, "threads": nth, "ops": ops})
+        t = max([t0] + [op[2] for op in ops if len(op) > 2])
+    return more
+
+
+def gen_case_restart(rng, cid):
+    """first-class restart cases: a rich pre-existing directory and 2-3 lifetimes"""
+    c = gen_case_x(rng, cid) if rng.random() < 0.6 else gen_case_s(rng, cid)
+    c["ops"] = c["ops"][:rng.randint(1, 6)]
+    parked = [op[1] for op in c["ops"] if op[0] in ("park", "park0")]
+    released = [op[1] for op in c["ops"] if op[0] == "rel"]
+    for th in parked:
+        if parked.count(th) > released.count(th):
+            c["ops"].append(["rel", th]); released.append(th)
+    c["pre"] = gen_pre_rich(rng, c, c["t0"])
+    t_last = max([c["t0"]] + [op[2] for op in c["ops"] if len(op) > 2 and isinstance(op[2], int)])
+    c["more"] = gen_more_lives(rng, c, t_last, rng.randint(1, 2))
+    c["restart"] = True
+    return c
+
+
+def gen_case_late(rng, cid):
+    """the end of the time crate's range (outside the property's quantifier: only the correspondence looks at these):
+    clocks around DT_MAX - period, where next_date starts to panic - in the constructor, in write, in make_writer"""
+    cfg = gen_config(rng, rng.choice(["x", "x", "s"]))
+    if cfg["rot"] == "n" and rng.random() < 0.7:
+        cfg["rot"] = rng.choice(["m", "h", "d"])
+    P = PER.get(cfg["rot"], 3600)
+    edge = DT_MAX - P                                   # the last reading at which next_date is defined
+    t0 = edge - rng.choice([0, 1, P, 2 * P + 5, -1, -5, 3 * P]) if rng.random() < 0.8 else DT_MAX - rng.randint(0, 100)
+    t0 = min(DT_MAX, t0)
+    ops = []
+    t = t0
+    if cfg["rot"] == "n" or t0 + P <= DT_MAX:
+        for k in range(rng.randint(2, 6)):
+            t = min(DT_MAX, rng.choice([t, t + 1, (t // P + 1) * P, (t // P + 1) * P - 1, t + P, edge, edge + 1, DT_MAX, t - 3]))
+            t = max(0, t)
+            ops.append(["w", k % 2 if cfg["iface"] == "s" else 0, t, mkbuf(k, rng).hex()])
+    return dict(cfg, id=cid, t0=t0, pre=gen_pre(rng, cfg, min(t0, TMAX)) if t0 <= TMAX else [], ops=ops, threads=2 if cfg["iface"] == "s" else 1, late=True)
+
+
+def lives_of(case):
+    """[{t0,max,iface,threads,ops}] - the case's own lifetime, then case['more']"""
+    first = {k: case[k] for k in ("t0", "max", "iface", "threads", "ops")}
+    return [first] + list(case.get("more", []))
+
+
+def obs_lives(o):
+    return [o] + list(o.get("more", []))
+
+
+def build_panics(case, life):
+    return case["rot"] != "n" and life["t0"] + PER[case["rot"]] > DT_MAX
 
 
 def gen_case_x(rng, cid):
@@ -320,15 +442,11 @@ def coq_chunk(hx):
     return "[" + "; ".join("%d%%N" % b for b in bytes.fromhex(hx)) + "]"
 
 
-def coq_case(case, recheck):
-    pre = "[" + "; ".join("{| fname := %s; created := %d%%N; base := %s; landed := [] |}" % (coq_string(n), i, coq_chunk(h))
-                          for i, (n, h) in enumerate(case["pre"])) + "]"
-    head = "let c := %s in let s0 := init c %s %d%%N (%d)%%Z in " % (coq_cfg(case, recheck), pre, len(case["pre"]), case["t0"])
-    if case["iface"] == "x":
-        ws = "[" + "; ".join("((%d)%%Z, %s)" % (op[2], coq_chunk(op[3])) for op in case["ops"]) + "]"
-        return head + "(observe s0, map (fun o => (o, 0%%nat, false)) (obs_trace_x c s0 %s))" % ws
+def coq_life_ops(life):
+    if life["iface"] == "x":
+        return "LX [" + "; ".join("((%d)%%Z, %s)" % (op[2], coq_chunk(op[3])) for op in life["ops"]) + "]"
     hs = []
-    for op in case["ops"]:
+    for op in life["ops"]:
         if op[0] == "w":
             hs.append("HW %d%%nat (%d)%%Z %s" % (op[1], op[2], coq_chunk(op[3])))
         elif op[0] == "park":
@@ -337,7 +455,20 @@ def coq_case(case, recheck):
             hs.append("HPark0 %d%%nat (%d)%%Z %s" % (op[1], op[2], coq_chunk(op[3])))
         else:
             hs.append("HRel %d%%nat" % op[1])
-    return head + "(observe s0, obs_trace_h c s0 [%s])" % "; ".join(hs)
+    return "LS [" + "; ".join(hs) + "]"
+
+
+def coq_case(case, recheck):
+    """the model's run of all lifetimes of the case: [(observation after construction, [observation per op])]"""
+    pre = "[" + "; ".join("{| fname := %s; created := %d%%N; base := %s; landed := [] |}" % (coq_string(n), i, coq_chunk(h))
+                          for i, (n, h) in enumerate(case["pre"])) + "]"
+    ls = []
+    for life in lives_of(case):
+        lf = dict(life)
+        if build_panics(case, life):
+            lf["ops"] = []              # no appender: the harness skips the ops too
+        ls.append("(%s, (%d)%%Z, %s)" % (coq_cfg(dict(case, max=life["max"]), recheck), life["t0"], coq_life_ops(lf)))
+    return "trace_lives (blank %s %d%%N) [%s]" % (pre, len(case["pre"]), "; ".join(ls))
 
 
 # ------------------------------------------------------------------------------------------------
@@ -870,7 +1001,7 @@ def run_sweep(ctx, rep, bins):
             for i in range(d["count"]):
                 b = d["first"] + i * d["step"]
                 ws += ["((%d)%%Z, [120%%N])" % (b - 1), "((%d)%%Z, [121%%N])" % b]
-            terms.append(("v%d" % j, "let c := %s in let s0 := init c [] 0%%N (%d)%%Z in map (map (fun x => (fst (fst x), N.of_nat (List.length (snd (fst x)))))) (observe s0 :: obs_trace_x c s0 [%s])"
+            terms.append(("v%d" % j, "let c := %s in let s0 := init c [] 0%%N (%d)%%Z in map (map (fun x => (fst (fst x), N.of_nat (List.length (snd (fst x)))))) (observe s0 :: map (fun o => fst (fst (fst o))) (obs_trace_x c s0 [%s]))"
                           % (coq_cfg(d, True), d["t0"], "; ".join(ws))))
         res = coq_eval(ctx, "From Coq Require Import ZArith NArith List String.\nFrom TV Require Import Appender.RollingModel.\nImport ListNotations.\n", terms, tag="sweepsub")
         inp = "\n".join(desc_line(d) for d in sub) + "\n"
@@ -956,31 +1087,75 @@ def load_corpus(ctx, yield0=False):
     return out
 
 
+def step_panics(st):
+    r = st.get("res")
+    rs = r if isinstance(r, list) else [r]
+    return sum(1 for x in rs if isinstance(x, str) and x.startswith("panic"))
+
+
 def compare(case, obs, model):
-    """model = (init listing, [(listing, rot, parked)]).  Returns a disagreement dict or None."""
-    mi, msteps = model
-    fi, ci = norm_listing(obs["init"])
-    fm, cm = model_listing(mi)
-    if fi != fm:
-        return {"case": case["id"], "at": "init", "impl": sorted(fi), "model": sorted(fm)}
-    if len(msteps) != len(obs["steps"]):
-        return {"case": case["id"], "at": "length", "impl": len(obs["steps"]), "model": len(msteps)}
-    for k, (st, (ml, mrot, mparked)) in enumerate(zip(obs["steps"], msteps)):
-        fi, ci = norm_listing(st["dir"])
-        fm, cm = model_listing(ml)
+    """model = [(built, [op observation])] per lifetime, observation = (listing, rotations elected, parked, panics).
+    Returns a disagreement dict or None."""
+    lives = lives_of(case)
+    olives = obs_lives(obs)
+    if len(model) != len(lives) or len(olives) != len(lives):
+        return {"case": case["id"], "at": "lifetimes", "impl": len(olives), "model": len(model)}
+    for li, (life, ob, entry) in enumerate(zip(lives, olives, model)):
+        mi, _r, _p, mpan, msteps = entry          # Coq prints ((a, b, c, d), e) as the flat tuple (a, b, c, d, e)
+        fi, ci = norm_listing(ob["init"])
+        fm, cm = model_listing(mi)
+        if bool(ob.get("build_panic")) != bool(mpan):
+            return {"case": case, "life": li, "at": "construction", "what": "Builder::build panics inside next_date",
+                    "impl": ob.get("build_panic"), "model": mpan}
         if fi != fm:
-            return {"case": case, "at": k, "what": "directory contents",
+            return {"case": case, "life": li, "at": "construction", "what": "directory after Builder::build",
                     "impl": {n: (c.decode("latin1") if c is not None else None) for n, c in fi.items()},
                     "model": {n: c.decode("latin1") for n, c in fm.items()}}
-        oi, tie = order_by_created(ci)
-        om, _ = order_by_created(cm)
-        if not tie and oi != om:
-            return {"case": case, "at": k, "what": "creation order", "impl": oi, "model": om}
-        if case["iface"] == "s":
-            if st["rot"] != mrot or bool(st["parked"]) != bool(mparked):
-                return {"case": case, "at": k, "what": "rotations elected / parked at the yield point",
-                        "impl": [st["rot"], st["parked"]], "model": [mrot, mparked]}
+        if mpan:
+            continue
+        if len(msteps) != len(ob["steps"]):
+            return {"case": case["id"], "life": li, "at": "length", "impl": len(ob["steps"]), "model": len(msteps)}
+        for k, (st, (ml, mrot, mparked, mp)) in enumerate(zip(ob["steps"], msteps)):
+            fi, ci = norm_listing(st["dir"])
+            fm, cm = model_listing(ml)
+            if step_panics(st) != mp:
+                return {"case": case, "life": li, "at": k, "what": "panic inside next_date (clock + period past the time crate's range)",
+                        "impl": st.get("res"), "model": mp}
+            if fi != fm:
+                return {"case": case, "life": li, "at": k, "what": "directory contents",
+                        "impl": {n: (c.decode("latin1") if c is not None else None) for n, c in fi.items()},
+                        "model": {n: c.decode("latin1") for n, c in fm.items()}}
+            oi, tie = order_by_created(ci)
+            om, _ = order_by_created(cm)
+            if not tie and oi != om:
+                return {"case": case, "life": li, "at": k, "what": "creation order", "impl": oi, "model": om}
+            if life["iface"] == "s":
+                if st["rot"] != mrot or bool(st["parked"]) != bool(mparked):
+                    return {"case": case, "life": li, "at": k, "what": "rotations elected / parked at the yield point",
+                            "impl": [st["rot"], st["parked"]], "model": [mrot, mparked]}
     return None
+
+
+def oracle_restart(rep, case, li, before, after, name0):
+    """Builder::build over a non-empty directory: nothing removed, truncated, rewritten or re-stamped (no pruning at
+    construction, whatever the limit); the only entry that may appear is the EMPTY file of the construction time's
+    period, and only if it was not there - an existing one is opened for append.
+    before = {name: bytes} (pre-existing entries, or the listing the previous lifetime left), after = listing"""
+    fa, ca = norm_listing(after)
+    fb, cb = before
+    ctx = {"case": case, "life": li, "before": sorted(fb), "after": sorted(fa)}
+    for n, c in fb.items():
+        if n not in fa:
+            rep.violation("building an appender removed %r (nothing is pruned at construction)" % n, ctx)
+        elif fa[n] != c:
+            rep.violation("building an appender changed the bytes of %r (an existing file must be opened for append, not truncated)" % n, ctx)
+        elif cb is not None and n in cb and cb[n] != ca.get(n):
+            rep.violation("building an appender re-created %r" % n, ctx)
+    for n, c in fa.items():
+        if n not in fb and not (n == name0 and c == b""):
+            rep.violation("building an appender created %r; only the empty file of the construction time's period %r may appear" % (n, name0), ctx)
+    if name0 not in fa:
+        rep.violation("the appender did not create / open the file of its construction time's period %r" % name0, ctx)
 
 
 def run(ctx):
@@ -1045,6 +1220,9 @@ def run(ctx):
               for i in range(ns)]
     cases += [gen_case_race(rng, "r%d" % i) for i in range(nr)]
     cases += [gen_malformed(rng, "bad%d" % i) for i in range(nm)]
+    nrs, nl = (60, 30) if not ctx.thorough() else (300, 120)
+    cases += [gen_case_restart(rng, "rs%d" % i) for i in range(nrs)]
+    cases += [gen_case_late(rng, "late%d" % i) for i in range(nl)]
     by_id = {c["id"]: c for c in cases}
     det = [c for c in cases if not c.get("race") and not c.get("malformed")]
 
@@ -1068,7 +1246,8 @@ def run(ctx):
     for prof, binpath in bins:
         if prof == "release" and not ctx.thorough():
             xs = [c for c in all_cases if c["iface"] == "x" and not c.get("malformed")]
-            cases = [c for c in xs if c["id"].startswith("corpus:")] + [c for c in xs if not c["id"].startswith("corpus:")][:70]
+            cases = ([c for c in xs if c["id"].startswith("corpus:")] + [c for c in xs if c["id"].startswith("x")][:50] +
+                     [c for c in all_cases if c["id"].startswith("rs")][:15] + [c for c in all_cases if c["id"].startswith("late")][:10])
             rep.extra["release_slice_cases"] = len(cases)
         else:
             cases = all_cases
@@ -1092,12 +1271,23 @@ def run(ctx):
             if o.get("error") or o.get("fatal"):
                 rep.tie("harness:%s:%s" % (prof, c["id"]), False, str(o.get("error") or o.get("fatal"))[:200], {"case": c})
                 continue
-            rep.evaluations += len(c["ops"])
+            allops = [op for life in lives_of(c) for op in life["ops"]]
+            rep.evaluations += len(allops)
+            rep.count("lives:%d" % len(lives_of(c)))
+            if c.get("late"):
+                rep.count("late:cases")
+            for life, ob in zip(lives_of(c), obs_lives(o)):
+                own = [n for n, _h, _c in ob["init"] if py_matches(c, n)]
+                if life["max"] is not None and len(own) > life["max"]:
+                    rep.count("restart:lifetime-starts-above-the-limit")
+                if ob.get("build_panic"):
+                    rep.count("late:constructor-panics")
+                rep.count("late:write-panics", sum(step_panics(st) for st in ob["steps"]))
             rep.count("rot:" + c["rot"])
             rep.count("max:%s" % c["max"])
             rep.count("fix:%s%s" % ("P" if c["prefix"] else "-", "S" if c["suffix"] else "-"))
             rep.count("ops:%d-%d" % (len(c["ops"]) // 4 * 4, len(c["ops"]) // 4 * 4 + 3))
-            for op in c["ops"]:
+            for op in allops:
                 rep.count("op:" + op[0])
             # non-trivial: >= 2 boundary crossings, one by a multi-period jump
             if c["rot"] != "n":
@@ -1140,7 +1330,19 @@ def run(ctx):
                 oracle_race(rep, c, o)
                 continue
             before = len(rep.violations)
-            Oracle(rep, c, o).run()
+            if not c.get("late"):       # clocks at the end of the time crate's range are outside the property: correspondence only
+                left = ({n: bytes.fromhex(h) for n, h in c["pre"] if h is not None}, None)
+                for li, (life, ob) in enumerate(zip(lives_of(c), obs_lives(o))):
+                    lc = dict(c, **life)
+                    lc.pop("more", None)
+                    if ob.get("error") or ob.get("fatal") or ob.get("build_panic"):
+                        rep.tie("harness:%s:%s:life%d" % (prof, c["id"], li), False, str(ob.get("error") or ob.get("fatal") or ob.get("build_panic"))[:200], {"case": c})
+                        break
+                    if pname(lc, life["t0"]) in left[0]:
+                        rep.count("restart:period-file-already-there")
+                    oracle_restart(rep, c, li, left, ob["init"], pname(lc, life["t0"]))
+                    Oracle(rep, lc, ob).run()
+                    left = norm_listing(ob["steps"][-1]["dir"] if ob["steps"] else ob["init"])
             f16_seen += sum(1 for v in rep.violations[before:] if v.get("finding") == "F16")
             if model is not None and c["id"] in model:
                 d = compare(c, o, model[c["id"]])
